@@ -10,6 +10,10 @@ CLAIMED = {
          "Callees are used through contracts: liskbft API reads, DataAccess reads, diffdb commit/revert, ABI bridge, pebble batch write, event emitter are trusted stubs with ghost call records (listed in evidence); the induction 'guards hold at every step => finalized prefix never changes' over histories is not mechanised; sync callers of deleteBlock are not yet under contract."),
  "C06": ("Deductive proof over the real code of aggregate-commit acceptance: verifyAggregateCommit returns nil only if the commit is empty at maxHeightCertified, or both parts are non-empty with maxHeightCertified < height <= maxHeightPrecommitted, height <= next-BFT-parameter height - 1 when one exists, and the weighted aggregate verification was performed on the node's own block certificate of that height with that height's certificate threshold and with each weight bound to its BLS key; BLSVerifyWeightedAggSig returns true only if the weights of the set bits reach the threshold (loop invariant over a recursive sum spec) and never indexes outside the bitmap; Bits.read/write bit semantics.",
          "BLS pairing primitives (blst, cgo) are uninterpreted and assumed not to panic; sort.Slice is assumed to permute in place and sort by the comparator; liskbft API reads and BLS-key uniqueness inside a parameter set are assumed (trusted stubs); GetAggregateCommit self-consistency and the single-commit pool admission path are not yet under contract."),
+ "C12": ("Deductive proof over the real code of the staged store against an abstract view (cache entry if present, else database): Database.Get/Has return exactly the view of the prefixed key and leave every key's view unchanged; Set/Del change exactly that key's view; the cache primitives (add/cache/set/get/del/existAny) meet their entry-level specifications; cacheValue.copy and cacheDB.copy are deep, alias-free copies that keep 'absent in database' distinct from 'empty value'; Snapshot stores such a copy under a fresh id, RestoreSnapshot installs exactly that snapshot (or changes nothing for an unknown id); Commit writes exactly the staged final state of every cached key and touches no other key (map iteration with a visited-set invariant). Keys are compared by byte-string content.",
+         "The underlying database is an uninterpreted content function (DatabaseReader.Get contract); merged range/prefix scans (Range, Iterate, mergeSortLimit), the db package iterators, RevertDiff's byte-for-byte restoration and prefix-view sharing are not yet under contract; bytes.JoinSize concatenation is a trusted string-level contract; snapshots are assumed not to be mutated between Snapshot and RestoreSnapshot (no code path does)."),
+ "C16": ("Deductive proof over the real code of transaction atomicity: ExecuteTransaction takes the store and event-log snapshots before the command, restores exactly that store snapshot and the event log when (and only when) the command fails, and appends the standard event - carrying success iff the command succeeded - after the restore; EventLogger.Add appends a revertible event and AddUnrevertible an unrevertible one with the next index, RestoreSnapshot keeps the entries before the mark and exactly the unrevertible later ones; the SMT batch maps every state write to (tree key, hash(value)) and every delete to (tree key, empty hash) and forwards it to the database batch; ABIHandler.revert dereferences no nil pointer on any path, including restart recovery.",
+         "Modules and commands are arbitrary (frame-less) but assumed not to take/restore snapshots of the transaction store or event log themselves and to keep them well-formed (rely conditions, listed in evidence); state root = sparse-Merkle root of the state is assumed (C10 not applicable); re-indexing of surviving events after a restore and Commit's root comparison are not yet under contract."),
  "C13": ("Deductive proof over the real code of the single-batch discipline: Chain.AddBlock and Chain.RemoveBlock perform exactly one database write, of the batch they were handed, and none on error; processValidated and deleteBlock reach the database only through that one call (ghost write counter on db.DB.Write/Set/Del), and the consensus-store commit / revert is staged into the very batch that is written with the block.",
          "Atomicity and durability of one pebble batch (Apply with Sync) is assumed, crash points inside pebble are not enumerated; saveBlock/removeBlock key-level content is a trusted stub; genesis path and PrepareCache are not yet under contract."),
  "C18": ("Deductive proof over the real code of the connection gater: addPenalty adds the score to the entry of exactly that IP (new entry: the score itself), returns the sum, sets a ban expiry (never the 'not banned' marker) exactly when the sum reaches 100, leaves every other IP's entry untouched and changes nothing on error; the inbound and outbound gates (isPeerConnectionAllowed, InterceptAddrDial, InterceptAccept, InterceptSecured) return exactly 'not blacklisted and not banned' (outbound InterceptSecured: true); blockAddr/unblockAddr change exactly one blacklist entry; the expiry sweeper only deletes map entries (it never edits a peerInfo, so a swept IP restarts with a clean score); the gater's mutex is never re-acquired by the goroutine holding it and is released on every path.",
